@@ -288,6 +288,30 @@ func perSplitRule(c *Ctx, r *Rule) {
 		})
 	}
 	r.Check("notifyFlush:sites", n >= 1, merging.Pos(), fmt.Sprintf("%d NotifyFlush call sites", n))
+	// who may acknowledge: only the per-split code of Run (the goroutine that posted, or the loop for an empty
+	// split). An acknowledgement anywhere else - in the retry loop when it gives up, say - is a second one for the
+	// same request, and the coordinator then lets the next invocation start one flush early.
+	nfw := w.Func("pkg/statsd", "(*HttpForwarderHandlerV2).notifyFlush")
+	nScanned := 0
+	defer func() {
+		r.Check("notifyFlush:only-per-split:scanned", nScanned >= 50, merging.Pos(), fmt.Sprintf("%d other functions of pkg/statsd scanned for acknowledgements", nScanned))
+	}()
+	for _, fn := range pkgFuncs(w, "pkg/statsd") {
+		if fn == merging || fn == posting || fn == nfw {
+			continue
+		}
+		nScanned++
+		eachInstr(fn, func(in ssa.Instruction) {
+			cl, isCall := in.(ssa.CallInstruction)
+			if !isCall {
+				return
+			}
+			isAck := (nfw != nil && staticCallee(cl) == nfw) || (cl.Common().IsInvoke() && cl.Common().Method.Name() == "NotifyFlush" && strings.Contains(cl.Common().Value.Type().String(), "internal/flush"))
+			if isAck {
+				r.Check("notifyFlush:only-per-split:"+FuncName(fn), false, in.Pos(), "the flush is acknowledged outside the per-split code of Run")
+			}
+		})
+	}
 }
 
 func c15(c *Ctx) {
@@ -1455,6 +1479,57 @@ func c20(c *Ctx) {
 			}
 		}
 		r.Check("Run:init-error-site", n == 1, run.Pos(), fmt.Sprintf("%d initError call sites", n))
+		// ... and by every place that can take the server's error before the heartbeat starts: each select case
+		// receiving from chErrs during start-up leads to initError on every path to a return (an earlier wait on
+		// the same channel that returns by itself swallows the report)
+		var hbBlock *ssa.BasicBlock
+		eachInstr(run, func(in ssa.Instruction) {
+			mc, ok := in.(*ssa.MakeClosure)
+			if !ok {
+				return
+			}
+			for _, cl := range callsIn(mc.Fn.(*ssa.Function)) {
+				if cal := staticCallee(cl); cal != nil && cal.Name() == "heartbeat" {
+					hbBlock = mc.Block()
+				}
+			}
+		})
+		hasInitErr := func(b *ssa.BasicBlock) bool {
+			for _, in := range b.Instrs {
+				if cl, ok := in.(ssa.CallInstruction); ok {
+					if cal := staticCallee(cl); cal != nil && cal.Name() == "initError" {
+						return true
+					}
+				}
+			}
+			return false
+		}
+		nRecv := 0
+		eachInstr(run, func(in ssa.Instruction) {
+			sel, ok := in.(*ssa.Select)
+			if !ok || (hbBlock != nil && hbBlock != sel.Block() && hbBlock.Dominates(sel.Block())) {
+				return
+			}
+			for k, st := range sel.States {
+				if st.Dir != types.RecvOnly || valueName(st.Chan) != "chErrs" {
+					continue
+				}
+				nRecv++
+				_, to := selectCaseEdge(sel, k)
+				okAll := to != nil
+				if to != nil && !hasInitErr(to) {
+					for _, b := range run.Blocks {
+						if _, isRet := b.Instrs[len(b.Instrs)-1].(*ssa.Return); isRet && !hasInitErr(b) {
+							if pathsAvoiding(to, b, hasInitErr) {
+								okAll = false
+							}
+						}
+					}
+				}
+				r.Check(fmt.Sprintf("Run:start-up-error-always-reported#%d", nRecv), okAll, sel.Pos(), "a start-up receive from chErrs reaches initError on every path to a return")
+			}
+		})
+		r.Check("Run:start-up-receive-site", nRecv >= 1 && hbBlock != nil, run.Pos(), fmt.Sprintf("%d start-up receives from chErrs", nRecv))
 		ie := w.Func("internal/awslambda/extension", "(*manager).initError")
 		if ie != nil {
 			ok := false
